@@ -55,7 +55,7 @@ func (c *caseCtx) partFetch(spec caseSpec, hostile bool) {
 	c.must(clone, "config", "lfs.transfer.batchsize", fmt.Sprint(batch))
 	c.srv.ActionHeaders = true
 	mode := fetchFaultModes[r.Intn(len(fetchFaultModes))]
-	authMode := c.offerAuthorization(clone)
+	authMode := c.offerAuthorization(clone) + "/" + c.urlAliases(clone, "origin")
 	fs := &faultScript{mode: mode, c: c}
 	c.srv.SetHook(fs.hook)
 	c.class = fmt.Sprintf("%s/batch%d/fault-%s/%s", c.part, batch, mode, authMode)
